@@ -708,7 +708,7 @@ impl<'a> Cx<'a> {
             self.near_missed = true;
             self.idioms.insert("near-miss");
             let conj = gs.join(" && ");
-            return match r.below(7) {
+            return match r.below(9) {
                 0 => format!("(({conj}) || ({atom}))"),
                 1 => format!("(if {conj} then true else ({atom}))"),
                 2 => format!("(!({conj}) && ({atom}))"),
@@ -731,6 +731,22 @@ impl<'a> Cx<'a> {
                     g2[last] = match &g2[last] {
                         Guard::Attr { on, attr } => Guard::Attr { on: swap(on), attr: attr.clone() },
                         Guard::Tag { on, key } => Guard::Tag { on: swap(on), key: key.clone() },
+                    };
+                    format!("({} && ({atom}))", g2.iter().map(|x| x.text()).collect::<Vec<_>>().join(" && "))
+                }
+                6 | 7 => {
+                    // guard on an entity LITERAL of the variable's own type (same attribute path, different receiver kind)
+                    let mut g2 = g.to_vec();
+                    let last = g2.len() - 1;
+                    let ptype = self.p_ty.clone().unwrap_or_else(|| "User".into());
+                    let rtype = self.r_ty.clone().unwrap_or_else(|| ptype.clone());
+                    let lit = |on: &str| -> String {
+                        let (var, ty) = if on.starts_with("principal") { ("principal", ptype.as_str()) } else if on.starts_with("resource") { ("resource", rtype.as_str()) } else { ("context", ptype.as_str()) };
+                        on.replacen(var, &format!("{ty}::\"{}\"", ["a", "b", "c", "d"][ty.len() % 4]), 1)
+                    };
+                    g2[last] = match &g2[last] {
+                        Guard::Attr { on, attr } => Guard::Attr { on: lit(on), attr: attr.clone() },
+                        Guard::Tag { on, key } => Guard::Tag { on: lit(on), key: key.clone() },
                     };
                     format!("({} && ({atom}))", g2.iter().map(|x| x.text()).collect::<Vec<_>>().join(" && "))
                 }
